@@ -51,6 +51,8 @@ def cases(seed, tier):
     if not q:
         out.append({"fam": "fixture", "files": ["last_furrow.dmp"], "seed": [seed, 5, 9]})
         out.append({"fam": "fixture", "files": [f"12_12/step_{i}.dmp" for i in (20, 21, 22)], "seed": [seed, 5, 10]})
+    if tier != "quick":
+        out.append({"fam": "suite", "seed": [seed, 0, 0]})
     return out
 
 
@@ -280,7 +282,31 @@ def _solve(solver, when, method, allow_neg, mon, hist, sigs, fam, rhs, extra=Non
 METHODS = [None, None, "lsq", "lsq_linear", "fix_stress"]
 
 
+
+def _suite_case(prop_id):
+    """the repository's own test-suite as an extra workload, run under this property's monitors (shipped fixtures)"""
+    from fv import suite
+    data, tail = suite.run(prop_id)
+    if data is None or data.get("exitstatus") not in (0, 1):
+        return {"status": "inconclusive", "reason": "suite-did-not-run", "trace": tail}
+    counters = {"suite:" + k: v for k, v in data["evals"].items()}
+    counters["suite:runs"] = 1
+    fails = list(data["fails"])
+    if data.get("unraisable"):
+        fails.append({"mech": "unraisable", "clause": "no destructor raises", "detail": {"events": data["unraisable"]}})
+    if data.get("monitor_errors"):
+        return {"status": "inconclusive", "reason": "monitor-error", "trace": data["monitor_errors"][-1], "counters": counters}
+    if fails:
+        return {"status": "violated", "findings": fails, "counters": counters, "sigs": [["suite"]]}
+    if not data["evals"]:
+        return {"status": "inconclusive", "reason": "suite-reached-no-monitor", "counters": counters}
+    return {"status": "held", "sigs": [["suite", sum(data["evals"].values())]], "sig": ["suite"], "counters": counters,
+            "observed": {"monitor_evaluations_in_suite": data["evals"]}}
+
+
 def run_case(case):
+    if case.get("fam") == "suite":
+        return _suite_case(ID)
     from fv import env
     from fv.gen import scen, realise, tissue
     import forsys as fs
